@@ -595,14 +595,17 @@ func (pool *hostConnPool) connect() (err error) {
 
 	// add the Conn to the pool
 	pool.mu.Lock()
-	defer pool.mu.Unlock()
 
 	if pool.closed {
+		// do not hold the lock while closing: closing the connection can call back
+		// into pool.HandleError, which takes the lock again
+		pool.mu.Unlock()
 		conn.Close()
 		return nil
 	}
 
 	pool.conns = append(pool.conns, conn)
+	pool.mu.Unlock()
 
 	return nil
 }
